@@ -4,6 +4,7 @@ import (
 	"crypto/sha256"
 	"fmt"
 	"os"
+	"regexp"
 	"sort"
 	"strings"
 
@@ -42,9 +43,15 @@ func (e *Engine) newCtx(fn *ssa.Function, opts *fnOpts, st *fnState) *FnCtx {
 		iters: map[ssa.Value]*iterInfo{}, closures: map[ssa.Value]*ssa.MakeClosure{}, strlits: map[string]string{},
 		names: map[string]bool{}, opts: opts, usedContracts: map[string]bool{}, usedExternal: map[string]bool{},
 		nameCount: map[string]int{}, prevHeap: map[string]string{}, uncontracted: map[string]bool{},
-		usedSpecFuncs: map[string]bool{}, boundFuncs: map[ssa.Value]*ssa.Function{}, state: st}
+		usedSpecFuncs: map[string]bool{}, readSnaps: map[string]heapState{}, boundFuncs: map[ssa.Value]*ssa.Function{}, state: st}
 	if st != nil {
 		c.knownHeaps = st.knownHeaps
+	}
+	if opts != nil && opts.spec != nil {
+		c.con, c.key = opts.spec.con, opts.spec.key
+		for k, v := range opts.spec.bound {
+			c.boundFuncs[k] = v
+		}
 	}
 	if c.con != nil && c.con.Flags["json"] {
 		c.jsonMode = true
@@ -54,6 +61,10 @@ func (e *Engine) newCtx(fn *ssa.Function, opts *fnOpts, st *fnState) *FnCtx {
 
 // finalize instantiates the spec axioms (single-threaded, before queries are built).
 func (c *FnCtx) finalize() {
+	if c.finalized {
+		return
+	}
+	c.finalized = true
 	env := &specEnv{c: c, vars: map[string]sv{}, heap: c.entry, pkg: c.pkgTypes()}
 	// evaluate every axiom whose spec functions are (transitively) used
 	done := map[*Axiom]bool{}
@@ -64,7 +75,7 @@ func (c *FnCtx) finalize() {
 				continue
 			}
 			names := map[string]bool{}
-			collectCalls(ax.E, names)
+			c.eng.specCallClosure(ax.E, names, 0)
 			rel := false
 			for n := range names {
 				if c.usedSpecFuncs[n] {
@@ -77,11 +88,55 @@ func (c *FnCtx) finalize() {
 			done[ax] = true
 			changed = true
 			env.pkg = c.eng.axiomPkg(ax, c)
-			t, err := env.evalBool(ax.E)
-			if err != nil {
-				c.notes = append(c.notes, fmt.Sprintf("axiom %s: %v", ax.Name, err))
+			// axioms over heap-reading spec functions are instantiated for every heap snapshot at
+			// which such a function is applied in this function's conditions (quantifying over
+			// array-sorted heap variables makes the solvers give up)
+			closure := map[string]bool{}
+			c.eng.specCallClosure(ax.E, closure, 0)
+			readsHeaps := false
+			for n := range closure {
+				if sf := c.eng.specs.Funcs[n]; sf != nil && len(sf.Reads) > 0 {
+					readsHeaps = true
+				}
+			}
+			var texts []string
+			c.inAxiom = true
+			if !readsHeaps {
+				env.heap = c.entry
+				t, err := env.evalBool(ax.E)
+				if err != nil {
+					c.notes = append(c.notes, fmt.Sprintf("axiom %s: %v", ax.Name, err))
+				} else {
+					texts = append(texts, t)
+				}
+			} else {
+				seenText := map[string]bool{}
+				for _, key := range c.readSnapOrder {
+					h := c.entry.clone()
+					for k, v := range c.readSnaps[key] {
+						h[k] = v
+					}
+					env.heap = h
+					nf := c.nfresh
+					t, err := env.evalBool(ax.E)
+					if err != nil {
+						c.notes = append(c.notes, fmt.Sprintf("axiom %s: %v", ax.Name, err))
+						break
+					}
+					_ = nf
+					norm := qvarRe.ReplaceAllString(t, "!q")
+					if !seenText[norm] {
+						seenText[norm] = true
+						texts = append(texts, t)
+					}
+				}
+				env.heap = c.entry
+			}
+			c.inAxiom = false
+			if len(texts) == 0 {
 				continue
 			}
+			t := and(texts...)
 			var syms []string
 			for n := range names {
 				if sf := c.eng.specs.Funcs[n]; sf != nil && sf.Body == nil {
@@ -95,6 +150,8 @@ func (c *FnCtx) finalize() {
 	}
 }
 
+var qvarRe = regexp.MustCompile(`!q[0-9]+`)
+
 func (e *Engine) axiomPkg(ax *Axiom, c *FnCtx) *typesPackage {
 	if strings.Contains(ax.File, "/cli/") {
 		if p := e.pkgs[cliPath]; p != nil {
@@ -107,6 +164,49 @@ func (e *Engine) axiomPkg(ax *Axiom, c *FnCtx) *typesPackage {
 		}
 	}
 	return c.pkgTypes()
+}
+
+// specCallClosure collects spec functions called by x, following macro bodies.
+func (e *Engine) specCallClosure(x Expr, into map[string]bool, depth int) {
+	if depth > 8 {
+		return
+	}
+	names := map[string]bool{}
+	collectCalls(x, names)
+	for n := range names {
+		if into[n] {
+			continue
+		}
+		into[n] = true
+		if sf := e.specs.Funcs[n]; sf != nil && sf.Body != nil {
+			e.specCallClosure(sf.Body, into, depth+1)
+		}
+	}
+}
+
+func bindersText(vs [][2]string) string {
+	var sb strings.Builder
+	for _, v := range vs {
+		fmt.Fprintf(&sb, "(%s %s)", v[0], v[1])
+	}
+	return sb.String()
+}
+
+// splitForallKeep splits (forall (binders) body) keeping the body (with its pattern annotation).
+func splitForallKeep(s string) (vars [][2]string, body string, ok bool) {
+	h, args, ok2 := splitTop(s)
+	if !ok2 || h != "forall" || len(args) != 2 {
+		return nil, "", false
+	}
+	bl := args[0]
+	for _, b := range splitItems(bl[1 : len(bl)-1]) {
+		its := splitItems(b[1 : len(b)-1])
+		if len(its) != 2 {
+			return nil, "", false
+		}
+		vars = append(vars, [2]string{its[0], its[1]})
+	}
+	return vars, args[1], true
 }
 
 func collectCalls(x Expr, into map[string]bool) {
@@ -184,6 +284,9 @@ func (e *Engine) genFunc(fn *ssa.Function, opts *fnOpts, cfg *solverCfg) *fnResu
 
 func (e *Engine) verifyFunc2(fn *ssa.Function, opts *fnOpts, cfg *solverCfg, solve bool) *fnResult {
 	res := &fnResult{key: e.displayKey(fn), fn: fn, con: e.contractFor(fn), srcHash: e.srcHashOf(fn)}
+	if opts != nil && opts.spec != nil {
+		res.key, res.con = opts.spec.key, opts.spec.con
+	}
 	st := &fnState{cands: map[int][]*candidate{}}
 	// pass 1: discover heaps
 	c := e.newCtx(fn, opts, st)
@@ -274,6 +377,7 @@ func (e *Engine) verifyFunc2(fn *ssa.Function, opts *fnOpts, cfg *solverCfg, sol
 		o := &Oblig{Name: res.key + "/cover/requires", Kind: "cover", Goal: "true", Prefix: c.requiresPrefix(), Fn: res.key, Cover: true, ctx: c}
 		res.covers = append(res.covers, o)
 	}
+	res.covers = append(res.covers, c.covers...)
 	if solve {
 		solveObligs(res.obligs, cfg)
 		if len(res.covers) > 0 {
